@@ -160,6 +160,16 @@ class ModRef:
         return 'Mod<%s>' % self.name
 
 
+class NaNV:
+    """the float NaN that numpy makes of None when a sequence is cast to a float array: not a number of the model (every
+    arithmetic / comparison on it is unsupported), only recognised by numpy.isnan and replaced by masked assignment"""
+    def __repr__(self):
+        return 'nan'
+
+
+NAN = NaNV()
+
+
 class ClassRef:
     def __init__(self, info):
         self.info = info
